@@ -148,6 +148,23 @@ void prop(const Case& cs) {
         }
       }
       vf::label("high-value-keys");
+    } else if (op.name == "level") {
+      // one key per slot whose register value is exactly v: when nothing higher was seen, every register of the array holds the same
+      // value (HLL_4: cur_min = v with all k registers at cur_min - the state a fresh array is in, except that it is not empty)
+      if (lg_k > 8) continue;
+      const uint32_t v = 1 + static_cast<uint32_t>(op.uarg(0) % 3), k = 1u << lg_k;
+      std::vector<char> filled(k, 0); uint32_t left = k;
+      uint64_t key = vf::mix64(op.uarg(1) + 0xC03C03) >> 8;
+      for (uint64_t tries = 0; left > 0 && tries < 4000000; ++tries, ++key) {
+        vf::Item it{vf::T_U64, key | (1ull << 56)};
+        uint32_t c;
+        if (!vf::ref_hll_item_coupon(it, c) || (c >> 26) != v) continue;
+        uint32_t slot = c & (k - 1);
+        if (filled[slot]) continue;
+        filled[slot] = 1; --left;
+        feed(it);
+      }
+      vf::label("level-fill");
     } else if (op.name == "dups") {
       uint64_t n = op.uarg(0) % 2000;
       if (items.empty()) continue;
@@ -196,6 +213,7 @@ rc::Gen<Case> gen_main() {
       {3, op2("bulk", rc::gen::withSize([](int s) { return range(0, 20 + 40 * s); }), range(0, 1))},
       {2, op2("bulk", range(0, 40), range(0, 1))},
       {2, op3("pool", range(1, 40), range(0, 5), range(0, 1 << 20))},
+      {1, op2("level", range(0, 2), range(0, 1 << 20))},
       {1, op2("dups", range(1, 500), range(0, 1 << 20))},
       {1, rc::gen::map(range(0, 19), [](int64_t x) { return x == 0 ? Op{"reset", {}} : Op{"dups", {50, x}}; })},
   });
@@ -206,7 +224,7 @@ rc::Gen<Case> gen_main() {
 // long streams at tiny lg_k: many cur-min shifts, exceptions created and removed
 rc::Gen<Case> gen_shift() {
   using namespace vf;
-  auto opg = choose({{3, op2("bulk", range(1000, 299999), range(0, 1))}, {3, op3("pool", range(10, 60), range(0, 5), range(0, 1 << 20))}, {1, op2("upd", range(0, T_NTYPES - 1), raw_gen())}});
+  auto opg = choose({{3, op2("bulk", range(1000, 299999), range(0, 1))}, {3, op3("pool", range(10, 60), range(0, 5), range(0, 1 << 20))}, {1, op2("level", range(0, 2), range(0, 1 << 20))}, {1, op2("upd", range(0, T_NTYPES - 1), raw_gen())}});
   return make_case({{"lg_k", range(4, 7)}, {"type", range(0, 2)}, {"full", range(0, 1)}, {"perm", range(0, 1 << 20)}}, oplist(opg, 2, 0.06));
 }
 // large lg_k, including transitions list -> set -> hll at 3/4 * 2^(lg_k-3) coupons
